@@ -4,6 +4,7 @@ import Bmc.Proofs.GenEnc.V2Session
 import Bmc.Proofs.GenEnc.Message
 import Bmc.Proofs.GenEnc.AES128CBC
 import Bmc.Proofs.EndToEnd.SessionC03
+import Bmc.Proofs.EndToEnd.HistoryC03
 #print axioms Bmc.Proofs.C03.datagram_shape
 #print axioms Bmc.Proofs.C03.integrity_pad
 #print axioms Bmc.Proofs.C03.payload_decrypts
@@ -22,3 +23,6 @@ import Bmc.Proofs.EndToEnd.SessionC03
 #print axioms Bmc.Proofs.GenEnc.AES128CBC_enc_eq
 #print axioms Bmc.Proofs.GenEnc.AES128CBC_enc_randErr
 #print axioms Bmc.Proofs.EndToEnd.generated_loop_datagrams
+#print axioms Bmc.Proofs.EndToEnd.history_datagrams
+#print axioms Bmc.Proofs.EndToEnd.generated_history_datagrams
+#print axioms Bmc.Proofs.EndToEnd.generated_history_packets_open
